@@ -134,7 +134,12 @@ def run_path(est, X, y, pa, s, label):
 
     def on_val(clf, Xv, yv, bs, res):
         if len(calls) > call_bound:
-            raise _NonTermination()
+            # beyond the schedule that reaches alpha = 1e12/lr: still legitimate while the weights themselves are huge
+            # (diverged training: chi-square objectives of 1e11 under M=100); reported once the shrinkage threshold dwarfs
+            # every weight and features survive nevertheless, or after twenty times the bound
+            wmax = max([float(np.max(np.abs(w))) for w in clf._get_weights() if np.size(w)] + [1.0])
+            if not np.isfinite(wmax) or float(clf.alpha) * lr > 1e6 * wmax or len(calls) > 20 * call_bound:
+                raise _NonTermination()
         calls.append({"bs": int(bs), "alpha": float(clf.alpha), "score": float(res[0]), "l1": float(res[1]), "weights": weights_of(clf),
                       "nsel": int((np.linalg.norm(skip_matrix(clf), axis=1) != 0).sum())})
 
